@@ -160,6 +160,10 @@ def rebuild(t, f):
         n["obj"] = next(it)
     elif o == "sub":
         n["obj"], n["idx"] = next(it), next(it)
+        ob, ix = n["obj"], n["idx"]
+        # (a, b)[0] -> a   (a helper returning a tuple that the caller unpacks)
+        if ob.op in ("tuple", "list") and ix.op == "const" and type(ix.value) is int and not any(e.op == "star" for e in ob.elts) and -len(ob.elts) <= ix.value < len(ob.elts):
+            return ob.elts[ix.value]
     elif o == "slice":
         n["lo"], n["hi"], n["step"] = next(it), next(it), next(it)
     elif o in ("tuple", "list", "set"):
@@ -196,6 +200,8 @@ def rebuild(t, f):
     elif o == "seq":
         n["effects"] = [next(it) for _ in g["effects"]]
         n["value"] = next(it)
+    elif o == "setattr":
+        n["store"] = next(it)
     elif o == "assert":
         n["cond"] = next(it)
     elif o == "when":
